@@ -117,7 +117,21 @@ fn history(ctx: &mut Ctx, rng: &mut Rng, base: &Engine, rv: &RefVoice, descr: &s
     // copies of the engine that stay alive while the original is modified (and vice versa)
     let mut alive: Vec<(Engine, Model)> = Vec::new();
     for _ in 0..len {
-        let which = rng.below(12);
+        let which = rng.below(13);
+        if which == 12 {
+            // the engine is put together again from its parts: nothing changes
+            e = Engine::new(e.voices.clone(), e.condition.clone());
+            calls.push("Engine::new(voices, condition)".into());
+            let (m, vol) = observe(&e, n);
+            if m != model || vol != vol_before {
+                ctx.violation(
+                    "getter-differs-from-reference-condition",
+                    J::obj().set("voice", descr).set("calls", J::from(calls.clone())).set("observed", format!("{:?} volume={}", m, vol)).set("expected", format!("{:?} volume={}", model, vol_before)),
+                );
+                return;
+            }
+            continue;
+        }
         if which == 10 {
             // Condition::load_model again: the per-stream settings, rate and frame period go back to the defaults
             let voices = e.voices.clone();
@@ -251,6 +265,33 @@ pub fn run(ctx: &mut Ctx) {
     ctx.run_cases("bundled", n, false, |ctx, rng, _| {
         history(ctx, rng, &bundled, &env.bundled_ref, "bundled");
     });
+    // a voice with a fourth stream (a copy of the low-pass stream): stream index 3 is in range
+    {
+        use std::sync::Arc;
+        match jbonsai::model::load_htsvoice_file(&env.bundled_path) {
+            Ok(mut v) => {
+                let extra = v.stream_models[2].clone();
+                v.stream_models.push(extra);
+                v.metadata.num_streams = 4;
+                let t = v.metadata.stream_type[2].clone();
+                v.metadata.stream_type.push(t);
+                let mut rv4 = env.bundled_ref.clone();
+                rv4.num_streams = 4;
+                let s2 = rv4.streams[2].clone();
+                rv4.streams.push(s2);
+                match crate::env::engine_from_voices(vec![Arc::new(v)]) {
+                    Ok(e4) => {
+                        let n = ctx.n(300, 20000);
+                        ctx.run_cases("four-streams", n, false, |ctx, rng, _| {
+                            history(ctx, rng, &e4, &rv4, "bundled + a fourth stream");
+                        });
+                    }
+                    Err(er) => ctx.inconclusive(&format!("four-stream engine: {}", er)),
+                }
+            }
+            Err(er) => ctx.inconclusive(&format!("bundled voice: {}", er)),
+        }
+    }
     let n = ctx.n(300, 40000);
     ctx.run_cases("generated", n, false, |ctx, rng, _| {
         let o = VoiceOpts::random(rng);
